@@ -719,6 +719,14 @@ static J plan_c14(uint64_t seed, const std::string &tier) {
       op = gensalt_op(g, false, true, true); op["k"] = "gensalt_ra";
       if (g.chance(1, 4)) { op["pf"] = Bytes(std::string(g.chance(1, 2) ? "$9$" : "*0")).to_json(); }
       if (g.chance(1, 6)) { op["rb"] = Bytes(rnd_bytes(g, 4)).to_json(); op["nrb"] = 4; op["pf"] = Bytes(std::string("$y$")).to_json(); }   // too few bytes for yescrypt -> EINVAL
+      // the caller that read a page (or more) from /dev/urandom and hands over all of it: "surplus bytes are ignored".
+      // Own random stream, so that every other choice of the plan stays what it was (held-out seeded change C14-r9).
+      { Rng pg(seed ^ (0x9e3779b97f4aULL * (uint64_t)(ops.a.size() + 1)), "pagebuf");
+        if (pg.chance(1, 8)) {
+          size_t n = pg.chance(1, 3) ? 4096 : pg.chance(1, 2) ? (size_t)pg.range(2200, 2400) : (size_t)pg.range(1201, 9000);
+          op["rb"] = Bytes(rnd_bytes(pg, n)).to_json(); op["nrb"] = (long long)n;
+          if (pg.chance(1, 2)) { op["pf"] = Bytes(std::string(pg.chance(1, 2) ? "$sha1" : "$sha1$")).to_json(); op["count"] = 0; }
+        } }
     } else op["k"] = "free_results";
     ops.push(op);
   }
